@@ -323,6 +323,15 @@ def _expr(draw, model, env, depth):
             if later_m:
                 mm, rr = draw(st.sampled_from(later_m))
                 return ["fld", ["dict", [["k0", first], ["k1", ["call", ["var", n], mm]]]], "k1", draw(st.sampled_from(["attr", "key"]))], rr
+    if c == 13 and depth >= 1:
+        # a lambda called where it is written (the keyword-only parameter keeps it from being substituted): its parameter has the
+        # type of the argument, the call the type of the body
+        arg, at = draw(_expr(model, env, depth - 1))
+        if at[0] != "rec":
+            p = draw(st.sampled_from(["a", "b", "e", "w"]))
+            body, bt = draw(_expr(model, [(nn, tt) for nn, tt in env if nn != p] + [(p, at)], depth - 1))
+            if bt[0] != "rec":
+                return ["calledl", p, arg, body], bt
     n, t = draw(st.sampled_from(env))
     return ["var", n], t
 
@@ -495,6 +504,8 @@ def render(e):
         return f"({render(e[2])} {e[1]} {render(e[3])})"
     if k == "bool":
         return f"({render(e[2])} {e[1]} {render(e[3])})"
+    if k == "calledl":
+        return f"(lambda {e[1]}, *, z_=0: {render(e[3])})({render(e[2])})"
     if k == "not":
         return f"(not {render(e[1])})"
     if k == "neg":
@@ -682,6 +693,10 @@ def expected_types(case):
             return elem_of(ty(e[1], env))
         if k in ("count", "len"):
             return ["int"]
+        if k == "calledl":
+            env3 = dict(env)
+            env3[e[1]] = ty(e[2], env)
+            return ty(e[3], env3)
         if k in ("cmp", "bool", "not"):
             return ["bool"]
         if k == "neg":
